@@ -203,7 +203,14 @@ macro_rules! parse_impl {
             configure!(p);
             for v in &vals {
                 let k = v["key"].as_str().unwrap_or("");
-                if let Ok(cc) = CustomClaim::try_from(k) { p.validate_claim(cc, validator_for(v["kind"].as_str().unwrap_or("accept"))); }
+                let vf = validator_for(v["kind"].as_str().unwrap_or("accept"));
+                match k {
+                    "sub" => { p.validate_claim(SubjectClaim::from(""), vf); }
+                    "iss" => { p.validate_claim(IssuerClaim::from(""), vf); }
+                    "aud" => { p.validate_claim(AudienceClaim::from(""), vf); }
+                    "jti" => { p.validate_claim(TokenIdentifierClaim::from(""), vf); }
+                    _ => { if let Ok(cc) = CustomClaim::try_from(k) { p.validate_claim(cc, vf); } }
+                }
             }
             for (ti, t) in $toks.iter().enumerate() {
                 CALLS.with(|c| c.borrow_mut().clear());
@@ -219,8 +226,15 @@ macro_rules! parse_impl {
                 let k = v["key"].as_str().unwrap_or("");
                 if v["via"].as_str() == Some("extend") {
                     ext.insert(k.to_string(), Box::new(validator_for(v["kind"].as_str().unwrap_or("accept"))));
-                } else if let Ok(cc) = CustomClaim::try_from(k) {
-                    p.validate_claim(cc, validator_for(v["kind"].as_str().unwrap_or("accept")));
+                } else {
+                    let vf = validator_for(v["kind"].as_str().unwrap_or("accept"));
+                    match k {
+                        "sub" => { p.validate_claim(SubjectClaim::from(""), vf); }
+                        "iss" => { p.validate_claim(IssuerClaim::from(""), vf); }
+                        "aud" => { p.validate_claim(AudienceClaim::from(""), vf); }
+                        "jti" => { p.validate_claim(TokenIdentifierClaim::from(""), vf); }
+                        _ => { if let Ok(cc) = CustomClaim::try_from(k) { p.validate_claim(cc, vf); } }
+                    }
                 }
             }
             if !ext.is_empty() { p.extend_validation_claims(ext); }
@@ -269,17 +283,22 @@ pub fn step(env: &mut Env, op: &str, st: &J, out: &str) -> Option<J> {
                     "v4.local" => seq_v4l(layer, &sk, &ops),
                     _ => seq_public(proto, layer, &sk, &ops),
                 };
-                // read the payload of every produced token back
+                // read the payload of every produced token back, with the footer / assertion that were set at the time of that build
                 let mut f: Option<String> = footer.map(|s| s.to_string());
                 let mut a: Option<String> = None;
+                let mut settings: Vec<(Option<String>, Option<String>)> = vec![];
                 for o in &ops {
                     if o[0] == "footer" { f = o[1].as_str().map(|s| s.to_string()); }
                     if o[0] == "assertion" { a = o[1].as_str().map(|s| s.to_string()); }
+                    if o[0] == "build" { settings.push((f.clone(), a.clone())); }
                 }
+                let mut bi = 0;
                 for b in outs.iter_mut() {
+                    if b.get("build").is_none() { continue; }
+                    let (bf, ba) = settings.get(bi).cloned().unwrap_or((None, None)); bi += 1;
                     if b["build"] == "ok" {
                         let tok = b["value"].as_str().unwrap_or("").to_string();
-                        let r = parse_core(proto, &tok, &pk, f.as_deref(), a.as_deref());
+                        let r = parse_core(proto, &tok, &pk, bf.as_deref(), ba.as_deref());
                         b["payload"] = json!(r.text());
                     }
                 }
